@@ -102,6 +102,8 @@ type c11Params struct {
 
 type c11Pair struct {
 	H    int64  `json:"h"`
+	T    int32  `json:"t"` // vote type: 1 prevote, 2 precommit
+	R    int32  `json:"r"` // round
 	Val  string `json:"val"`
 	BlkA string `json:"blkA"`
 	BlkB string `json:"blkB"`
@@ -135,7 +137,8 @@ type c11Op struct {
 	MB    int64    `json:"mb,omitempty"`    // Pending: abstract bound (#items), -1 = no cap
 	Bytes int64    `json:"bytes,omitempty"` // Pending: real byte bound (used when Real is set)
 	Real  bool     `json:"real,omitempty"`
-	Tk    string   `json:"tk,omitempty"` // concurrent add ticket
+	Tk    string   `json:"tk,omitempty"`   // concurrent add ticket
+	Swap  bool     `json:"swap,omitempty"` // Report: the two votes in the other order
 }
 
 type c11Run struct {
@@ -251,9 +254,9 @@ type c11World struct {
 	byBytes map[string]string // sha(evidence proto bytes) -> id
 	keyName map[string]string // real key suffix -> abstract key
 	pairs   map[string][2]*types.Vote
+	pairKey map[string]string // (type, height, round, validator, {blocks}) -> pair id
 	saved   int64
-	startH  int64    // height of the state the running pool was created from
-	buf     []string // pair ids in the consensus buffer (ghost kept by the driver for display only)
+	startH  int64 // height of the state the running pool was created from
 	tickets map[string]*c11Ticket
 	maxW    int64
 }
@@ -424,7 +427,7 @@ func (w *c11World) nameOf(addr []byte) string {
 func newC11World(t *testing.T, ctx *c11Ctx) *c11World {
 	w := &c11World{t: t, ctx: ctx, pvs: map[string]types.MockPV{}, addr: map[string][]byte{},
 		items: map[string]types.Evidence{}, byBytes: map[string]string{}, keyName: map[string]string{},
-		pairs: map[string][2]*types.Vote{}, tickets: map[string]*c11Ticket{}}
+		pairs: map[string][2]*types.Vote{}, pairKey: map[string]string{}, tickets: map[string]*c11Ticket{}}
 	// keys named in address order
 	type kv struct {
 		pv   types.MockPV
@@ -705,10 +708,22 @@ func (w *c11World) buildItems() {
 	for id, p := range w.ctx.Pairs {
 		// votes exactly as the genuine item's votes (deterministic signatures) so that the
 		// evidence the pool forms from them is byte-identical to item p.Dv
-		a := w.mkVote(p.H, 0, 2, p.Val, p.BlkA, true)
-		b := w.mkVote(p.H, 0, 2, p.Val, p.BlkB, true)
-		w.pairs[id] = [2]*types.Vote{b, a} // reported in the "wrong" order on purpose
+		if p.T == 0 {
+			p.T = 2
+		}
+		a := w.mkVote(p.H, p.R, p.T, p.Val, p.BlkA, true)
+		b := w.mkVote(p.H, p.R, p.T, p.Val, p.BlkB, true)
+		w.pairs[id] = [2]*types.Vote{b, a} // reported in the "wrong" order on purpose (Swap: the other one)
+		w.pairKey[c11PairKey(a, b)] = id
 	}
+}
+
+func c11PairKey(a, b *types.Vote) string {
+	ka, kb := a.BlockID.Key(), b.BlockID.Key()
+	if ka > kb {
+		ka, kb = kb, ka
+	}
+	return fmt.Sprintf("%d/%d/%d/%X/%X/%X", a.Type, a.Height, a.Round, a.ValidatorAddress, ka, kb)
 }
 
 // ---------------------------------------------------------------- projection
@@ -777,20 +792,22 @@ func (w *c11World) project() map[string]interface{} {
 		list = append(list, w.idOfEv(e.Value.(types.Evidence)))
 	}
 	p.mtx.Lock()
-	nbuf := len(p.consensusBuffer)
+	// the REAL buffer, entry by entry (type, height, round, validator, the two blocks)
+	buf := []string{}
+	for _, vs := range p.consensusBuffer {
+		id := "?"
+		if vs.VoteA != nil && vs.VoteB != nil {
+			if pid, ok := w.pairKey[c11PairKey(vs.VoteA, vs.VoteB)]; ok {
+				id = pid
+			}
+		}
+		buf = append(buf, id)
+	}
 	h := p.state.LastBlockHeight
 	lt := p.state.LastBlockTime
 	pA := p.state.ConsensusParams.Evidence.MaxAgeNumBlocks
 	pD := int64(p.state.ConsensusParams.Evidence.MaxAgeDuration / time.Second)
 	p.mtx.Unlock()
-	buf := append([]string{}, w.buf...)
-	if nbuf != len(buf) {
-		// the driver's mirror and the real buffer disagree: expose the real length
-		buf = make([]string, nbuf)
-		for i := range buf {
-			buf[i] = "?"
-		}
-	}
 	infl := []map[string]interface{}{}
 	tks := make([]string, 0, len(w.tickets))
 	for tk := range w.tickets {
@@ -927,11 +944,12 @@ func (w *c11World) exec2(out *c11Writer, run int, op c11Op) (bool, map[string]in
 		if !ok {
 			return false, nil
 		}
-		pk := c11Guard(func() { w.pool.ReportConflictingVotes(p[0], p[1]) })
-		if pk == "" {
-			w.buf = append(w.buf, op.Pair)
+		va, vb := p[0], p[1]
+		if op.Swap {
+			va, vb = vb, va
 		}
-		ev["ev"], ev["pair"] = "Report", op.Pair
+		pk := c11Guard(func() { w.pool.ReportConflictingVotes(va, vb) })
+		ev["ev"], ev["pair"], ev["swap"] = "Report", op.Pair, op.Swap
 		c11Outcome(ev, nil, pk)
 	case "Update":
 		l, ok := w.evs(op.IDs)
@@ -951,9 +969,6 @@ func (w *c11World) exec2(out *c11Writer, run int, op c11Op) (bool, map[string]in
 		}
 		pk := c11Guard(func() { w.pool.Update(w.stateAt(to), l) })
 		c11Outcome(ev, nil, pk)
-		if pk == "" {
-			w.buf = nil
-		}
 		// a node whose Update panicked never reaches the state save
 		if !op.Crash && pk == "" {
 			for s := w.saved + 1; s <= to; s++ {
@@ -999,7 +1014,6 @@ func (w *c11World) exec2(out *c11Writer, run int, op c11Op) (bool, map[string]in
 			break
 		}
 		w.pool = p
-		w.buf = nil
 		w.startH = w.saved
 		ev["ev"] = "Restart"
 		c11Outcome(ev, nil, "")
